@@ -4,6 +4,8 @@ suite on it and then every check with VERIF_REPO pointing at it; removes the cop
 (UNDECIDED is acceptable where a contract names a local that the variant renames).
   variants:  unparse  - every module re-emitted by ast.unparse (comments, layout, line numbers change)
              rename   - unparse + every local variable of every function renamed (x -> x_v)
+             flip     - unparse + every if/else (without elif) flipped: `if not c: B else: A`
+             shuffle  - unparse + top-level functions reordered, a `pass` at the start of every function, an unused helper per module
 usage: tools/harmless.py <unparse|rename> [check ids...]"""
 import ast, os, shutil, subprocess, sys, tempfile
 
@@ -40,6 +42,27 @@ try:
             p = os.path.join(dp, f); s = open(p).read()
             if not s.strip(): continue
             t = ast.parse(s)
+            if variant == 'flip':
+                # `if c: A else: B` (no elif) -> `if not c: B else: A`
+                class Flip(ast.NodeTransformer):
+                    def visit_If(self, n):
+                        self.generic_visit(n)
+                        if n.orelse and not (len(n.orelse) == 1 and isinstance(n.orelse[0], ast.If)):
+                            n.test, n.body, n.orelse = ast.UnaryOp(op=ast.Not(), operand=n.test), n.orelse, n.body
+                        return n
+                t = ast.fix_missing_locations(Flip().visit(t))
+            if variant == 'shuffle':
+                # top-level functions in reverse order (imports, constants and classes keep their place), a no-op statement at the start of every
+                # function body, an unused helper appended to every module
+                funcs = [n for n in t.body if isinstance(n, ast.FunctionDef) and not n.decorator_list]
+                slots = [i for i, n in enumerate(t.body) if n in funcs]
+                for i, f2 in zip(slots, reversed(funcs)): t.body[i] = f2
+                for n in ast.walk(t):
+                    if isinstance(n, ast.FunctionDef):
+                        k = 1 if (n.body and isinstance(n.body[0], ast.Expr) and isinstance(n.body[0].value, ast.Constant)) else 0
+                        n.body.insert(k, ast.Pass())
+                t.body.append(ast.parse('def _unused_helper_for_the_variant(x):\n    return x\n').body[0])
+                t = ast.fix_missing_locations(t)
             if variant == 'rename':
                 def handle(body):
                     for node in body:
